@@ -436,19 +436,40 @@ Definition check_tid_list (dead : Z -> bool) (s : rs) : rs * bool :=
   ({| tids := l; rchan := rchan s; finish_received := finish_received s;
       child_exited := child_exited s || all; failed := failed s |}, all).
 
+(* drop_pending_forks (fix df8806b): FORK_END can only arrive through the pipe; once the pipe is empty
+   and has no writer left (`nowriter`: poll says POLLHUP and not POLLIN) the tid = -1 entries are given up *)
+Definition pending_fork (t : tl) : bool := (t_tid t =? -1) && negb (t_exited t).
+Definition drop_mark (t : tl) : tl := if pending_fork t then mark_exited t else t.
+Definition drop_pending_forks (nowriter : bool) (s : rs) : rs * bool :=
+  match rchan s with
+  | [] =>
+      if nowriter then
+        ({| tids := map drop_mark (tids s); rchan := rchan s; finish_received := finish_received s;
+            child_exited := child_exited s; failed := failed s |}, existsb pending_fork (tids s))
+      else (s, false)
+  | _ :: _ => (s, false)
+  end.
+
 Inductive outcome := Stopped (s : rs) | Spinning (s : rs).
-(* the loop of stop_tracing (uftrace_done stays false: no signal to the recorder itself) *)
-Fixpoint stop_loop (fuel : nat) (dead : Z -> bool) (s : rs) : outcome :=
+(* the loop of stop_tracing (uftrace_done stays false: no signal to the recorder itself).
+   `dropf = true`: the code as it is (with drop_pending_forks); `dropf = false`: the legacy loop.
+   `nowriter`: every tracee has closed the pipe (that is why do_main_loop left its poll loop). *)
+Fixpoint stop_loop (dropf : bool) (fuel : nat) (dead : Z -> bool) (nowriter : bool) (s : rs) : outcome :=
   match fuel with
   | O => Spinning s
   | S k =>
       match rchan s with
       | m :: ch =>
-          stop_loop k dead (handle m {| tids := tids s; rchan := ch; finish_received := finish_received s;
-                                        child_exited := child_exited s; failed := failed s |})
+          stop_loop dropf k dead nowriter
+                    (handle m {| tids := tids s; rchan := ch; finish_received := finish_received s;
+                                 child_exited := child_exited s; failed := failed s |})
       | [] =>
           let '(s1, all) := check_tid_list dead s in
-          if all then Stopped s1 else if finish_received s1 then Stopped s1 else stop_loop k dead s1
+          if all then Stopped s1
+          else
+            let '(s2, dropped) := if dropf then drop_pending_forks nowriter s1 else (s1, false) in
+            if dropped then stop_loop dropf k dead nowriter s2
+            else if finish_received s2 then Stopped s2 else stop_loop dropf k dead nowriter s2
       end
   end.
 Definition rs0 (ch : list tmsg) : rs :=
@@ -555,7 +576,9 @@ Inductive lev :=
 | LMsg (m : tmsg)
 | LSig (pid : Z)
 | LCheck (dead : list Z)                          (* tids whose /proc/<tid>/stat is gone or shows Z *)
-         (ret cex fin : bool) (l : list (Z * Z * bool)).   (* what the implementation reported *)
+         (ret cex fin : bool) (l : list (Z * Z * bool))    (* what the implementation reported *)
+| LDrop (nowriter : bool)                         (* drop_pending_forks on an empty pipe with / without a writer *)
+        (ret : bool) (l : list (Z * Z * bool)).
 Definition tl_eqb (t : tl) (e : Z * Z * bool) : bool :=
   let '(p, i, x) := e in (t_pid t =? p)%Z && (t_tid t =? i)%Z && Bool.eqb (t_exited t) x.
 Fixpoint tls_eqb (a : list tl) (b : list (Z * Z * bool)) : bool :=
@@ -574,26 +597,31 @@ Fixpoint live_agrees (evs : list lev) (s : rs) : bool :=
       let '(s1, all) := check_tid_list (in_list dead) s in
       Bool.eqb all ret && Bool.eqb (child_exited s1) cex && Bool.eqb (finish_received s1) fin
       && tls_eqb (tids s1) l && live_agrees r s1
+  | LDrop nw ret l :: r =>
+      let '(s1, d) := drop_pending_forks nw s in
+      Bool.eqb d ret && tls_eqb (tids s1) l && live_agrees r s1
   end.
-(* the property on what the implementation reported: a dead task with a real tid is marked, and
-   when every entry is marked the answer is "all exited" *)
+(* the property on what the implementation reported: a dead task with a real tid is marked, when every
+   entry is marked the answer is "all exited", and once the pipe is empty without a writer no
+   unresolved fork entry is left *)
 Definition ok_check (dead : list Z) (ret : bool) (l : list (Z * Z * bool)) : bool :=
   forallb (fun e => let '(_, i, x) := e in (i <? 0)%Z || negb (in_list dead i) || x) l
   && (negb (forallb (fun e => let '(_, _, x) := e in x) l) || ret).
+Definition ok_drop (nowriter : bool) (l : list (Z * Z * bool)) : bool :=
+  negb nowriter || forallb (fun e => let '(_, i, x) := e in negb (i =? -1)%Z || x) l.
 Fixpoint ok_live (evs : list lev) : bool :=
   match evs with
   | [] => true
   | LCheck dead ret _ _ l :: r => ok_check dead ret l && ok_live r
+  | LDrop nw _ l :: r => ok_drop nw l && ok_live r
   | _ :: r => ok_live r
   end.
-(* a listed task with tid = -1 (FORK_START without FORK_END) at a check where everything else is done *)
-Fixpoint fork_window_seen (evs : list lev) : bool :=
+(* every task dead, pipe without writer: check; drop; check must end with "all exited" *)
+Fixpoint last_check_true (evs : list lev) (seen : bool) : bool :=
   match evs with
-  | [] => false
-  | LCheck dead ret _ _ l :: r =>
-      (negb ret && forallb (fun e => let '(_, i, x) := e in (i <? 0)%Z || x) l
-       && existsb (fun e => let '(_, i, x) := e in (i <? 0)%Z && negb x) l) || fork_window_seen r
-  | _ :: r => fork_window_seen r
+  | [] => seen
+  | LCheck _ ret _ _ _ :: r => last_check_true r ret
+  | _ :: r => last_check_true r seen
   end.
 
 (* ---- end-to-end: decode a real <tid>.dat and judge it against the program's own log ---- *)
